@@ -36,6 +36,46 @@ MUTANTS = {
     "m-c04-corner": ("ceos_alos2/sar_leader/map_projection.py", 'coordinate = ["top_left", "top_right", "bottom_right", "bottom_left"]', 'coordinate = ["top_left", "top_right", "bottom_left", "bottom_right"]', ["C04"]),
     "m-c06-lastchunk": ("ceos_alos2/sar_image/io.py", "if records_per_chunk * (index + 1) <= n_records", "if records_per_chunk * (index + 1) < n_records", ["C06", "C01", "C18"]),
     "m-c06-norm": ("ceos_alos2/array.py", "if chunksize in (None, -1) or chunksize > dim_size:", "if chunksize in (None, -1) or chunksize >= dim_size - 1:", ["C06"]),
+
+    "m-c01-no720": ("ceos_alos2/sar_image/io.py", "offset * record_size + 720 for offset", "offset * record_size + 719 for offset", ["C01"]),
+    "m-c02-relocate": ("ceos_alos2/array.py", "return chunk_info, [(min_ - offset, max_ - offset) for min_, max_ in ranges]", "return chunk_info, [(min_ - offset, max_ - offset) for min_, max_ in sorted(ranges)]", ["C02"]),
+    "m-c03-swap": (
+        "ceos_alos2/sar_image/processed_data.py",
+        '"slant_range_to_mid_pixel" / Metadata(Int32ub, units="m"),\n    "slant_range_to_last_pixel" / Metadata(Int32ub, units="m"),',
+        '"slant_range_to_last_pixel" / Metadata(Int32ub, units="m"),\n    "slant_range_to_mid_pixel" / Metadata(Int32ub, units="m"),',
+        ["C03"],
+    ),
+    "m-c03-factor": ("ceos_alos2/sar_image/signal_data.py", '"platform_longitude" / Metadata(Factor(Int32ub, 1e-6), units="deg")', '"platform_longitude" / Metadata(Factor(Int32ub, 1e-5), units="deg")', ["C03"]),
+    "m-c03-lastline": ("ceos_alos2/sar_image/metadata.py", "return variables | valmap(compose_left(second, first), attrs)", "return variables | valmap(compose_left(second, lambda v: v[-1]), attrs)", ["C03"]),
+    "m-c03-unit": ("ceos_alos2/sar_image/processed_data.py", '"azimuth_fm_rate_of_mid_pixel" / Metadata(Int32ub, units="Hz/ms")', '"azimuth_fm_rate_of_mid_pixel" / Metadata(Int32ub, units="Hz/s")', ["C03"]),
+    "m-c05-dq": ("ceos_alos2/sar_leader/data_quality_summary.py", "PaddedString(512 - this._.number_of_channels * 32)", "PaddedString(512 - this._.number_of_channels * 16 - 32)", ["C05"]),
+    "m-c05-att": ("ceos_alos2/sar_leader/attitude.py", "(12 + 4 + this.number_of_points * 120)", "(12 + 4 + this.number_of_points * 120 + (this.number_of_points == 77))", ["C05"]),
+    "m-c05-trailer": ("ceos_alos2/sar_trailer/__init__.py", "offsets = list(itertools.accumulate(data_sizes, initial=0))", "offsets = list(itertools.accumulate(data_sizes[::-1], initial=0))", ["C05"]),
+    "m-c05-filepointers": ("ceos_alos2/volume_directory/structure.py", "file_descriptor[this.volume_descriptor.number_of_file_pointer_records]", "file_descriptor[lambda ctx: min(ctx.volume_descriptor.number_of_file_pointer_records, 9)]", ["C05", "C16"]),
+    "m-c07-rpc": ("ceos_alos2/sar_image/caching/__init__.py", "return decode(local.read_text(), records_per_chunk=records_per_chunk)", "return decode(local.read_text(), records_per_chunk=None)", ["C07", "C10"]),
+    "m-c07-usecache": ("ceos_alos2/sar_image/__init__.py", "    if use_cache:\n        try:", "    if use_cache or not create_cache:\n        try:", ["C07", "C10"]),
+    "m-c07-cliname": ("ceos_alos2/sar_image/cli.py", 'target = cache_root / f"{path}.index"', 'target = cache_root / f"{path}.idx"', ["C07"]),
+    "m-c07-order": ("ceos_alos2/sar_image/caching/__init__.py", "    if local.is_file():\n        return decode(local.read_text(), records_per_chunk=records_per_chunk)\n\n    if remote in mapper:", "    if local.is_file() and remote not in mapper:\n        return decode(local.read_text(), records_per_chunk=records_per_chunk)\n\n    if remote in mapper:", []),
+    "m-c08-float": ("ceos_alos2/sar_image/caching/encoders.py", 'encoded = (obj - reference).astype("int64").tolist()', 'encoded = (obj - reference).astype("float64").astype("int64").tolist()', ["C08"]),
+    "m-c08-tuple": ("ceos_alos2/sar_image/caching/encoders.py", 'return {"__type__": "tuple", "data": list(map(preprocess, data))}', "return list(map(preprocess, data))", ["C08"]),
+    "m-c09-narrow": ("ceos_alos2/sar_image/caching/__init__.py", "    except json.JSONDecodeError as e:\n", "    except json.JSONDecodeError as e:\n        if 'Unterminated' in str(e):\n            raise\n", ["C09"]),
+    "m-c10-mutate-options": ("ceos_alos2/xarray.py", "    root = io.open(path, **backend_options)", "    backend_options.setdefault('use_cache', True)\n    root = io.open(path, **backend_options)", ["C10"]),
+    "m-c10-create-unasked": ("ceos_alos2/sar_image/__init__.py", "    if create_cache:\n        caching.create_cache", "    if create_cache or records_per_chunk == 1:\n        caching.create_cache", ["C10"]),
+    "m-c11-reread": ("ceos_alos2/array.py", "                chunk = read_chunk(f, **chunk_info)\n", "                chunk = read_chunk(f, **chunk_info)\n                chunk = read_chunk(f, **chunk_info)\n", ["C11"]),
+    "m-c11-wholefile": ("ceos_alos2/array.py", "def read_chunk(f, offset, size):\n    f.seek(offset)\n\n    return f.read(size)", "def read_chunk(f, offset, size):\n    f.seek(0)\n\n    return f.read()[offset:offset + size]", ["C11"]),
+    "m-c13-scanlost": ("ceos_alos2/sar_image/__init__.py", "    parts = [polarization, scan_number]", "    parts = [polarization, scan_number if polarization != 'HV' else None]", ["C13", "C15"]),
+    "m-c14-match": ("ceos_alos2/summary.py", "    match = entry_re.fullmatch(line)", "    match = entry_re.match(line)", ["C14"]),
+    "m-c14-firsterror": ("ceos_alos2/summary.py", "        except ValueError as e:\n            errors[lineno] = e\n", "        except ValueError as e:\n            if len(errors) < 3:\n                errors[lineno] = e\n", ["C14"]),
+    "m-c15-swapdir": ("ceos_alos2/decoders.py", 'observation_directions = {"L": "left looking", "R": "right looking"}', 'observation_directions = {"R": "left looking", "L": "right looking"}', ["C15"]),
+    "m-c15-mode": ("ceos_alos2/decoders.py", '"WWD": "ScanSAR nominal 28MHz mode dual polarization",', '"WWD": "ScanSAR nominal 14MHz mode dual polarization",', ["C15"]),
+    "m-c16-widths": ("ceos_alos2/volume_directory/structure.py", '"scene_id" / PaddedString(40),\n    "scene_location_id" / PaddedString(40),', '"scene_id" / PaddedString(38),\n    "scene_location_id" / PaddedString(42),', ["C16"]),
+    "m-c16-rename": ("ceos_alos2/volume_directory/metadata.py", '"logical_volume_generating_agency": "creation_agency",\n        "logical_volume_generating_facility": "creation_facility",', '"logical_volume_generating_agency": "creation_facility",\n        "logical_volume_generating_facility": "creation_agency",', ["C16"]),
+    "m-c17-doy": ("ceos_alos2/datatypes.py", 'days=obj["day_of_year"] - 1, milliseconds=obj["milliseconds"]', 'days=obj["day_of_year"] - (obj["day_of_year"] > 59), milliseconds=obj["milliseconds"]', ["C17", "C03"]),
+    "m-c17-us": ("ceos_alos2/datatypes.py", "return truncated + datetime.timedelta(microseconds=obj)", "return truncated + datetime.timedelta(microseconds=obj - obj % 1000)", ["C17", "C03"]),
+    "m-c18-nosizecheck": ("ceos_alos2/sar_image/io.py", "    if n_elements * element_size != len(content):", "    if False:", ["C18"]),
+    "m-c20-spare": ("ceos_alos2/sar_leader/dataset_summary.py", '"spare5" / PaddedString(8),', '"extra5" / PaddedString(8),', ["C20", "C04"]),
+    "m-c20-minus1": ("ceos_alos2/sar_image/metadata.py", '"number_of_burst_data": lambda v: v if v != -1 else [],', '"number_of_burst_data": lambda v: v if v not in (-1, 0) else [],', ["C03"]),
+    "m-c20-blankint": ("ceos_alos2/datatypes.py", "        if not stripped:\n            return -1\n        return int(stripped)", "        if not stripped:\n            return 0\n        return int(stripped)", ["C20"]),
     "m-c19-sharedhandle": [
         ("ceos_alos2/array.py", '        with self.fs.open(self.url, mode="rb") as f:\n', '        f = _HANDLES.setdefault(self.url, None) or _HANDLES.__setitem__(self.url, self.fs.open(self.url, mode="rb")) or _HANDLES[self.url]\n        if True:\n'),
         ("ceos_alos2/array.py", 'raw_dtypes = {', '_HANDLES = {}\nraw_dtypes = {'),
@@ -77,7 +117,7 @@ def run_mutant(mid, suite=True, checks=None, tier="quick"):
             result["suite_passes"] = ok
             result["suite"] = tail
         for pid in checks or props or [p for p in sys.argv if p.startswith("C") and len(p) == 3]:
-            env = dict(os.environ, VERIF_REPO=str(repo))
+            env = dict(os.environ, VERIF_REPO=str(repo), VERIF_EVIDENCE_DIR=str(scratch / "evidence"), VERIF_REPLAY_DIR=str(scratch / "replays"))
             r = subprocess.run([str(VERIF / "check"), pid, "--tier", tier], capture_output=True, text=True, env=env, cwd=VERIF)
             result[pid] = {"exit": r.returncode, "violation": "VIOLATION" in r.stdout,
                            "first": next((l for l in r.stdout.splitlines() if "root cause" in l), "")[:300]}
@@ -95,15 +135,7 @@ def main():
         return
     ids = list(MUTANTS) if "--all" in args else args
     for mid in ids:
-        # evidence files are rewritten by mutant runs: keep the real ones
-        backup = pathlib.Path(tempfile.mkdtemp(prefix="vfev-"))
-        shutil.copytree(VERIF / "evidence", backup / "evidence")
-        try:
-            print(json.dumps(run_mutant(mid, suite)), flush=True)
-        finally:
-            shutil.rmtree(VERIF / "evidence")
-            shutil.copytree(backup / "evidence", VERIF / "evidence")
-            shutil.rmtree(backup)
+        print(json.dumps(run_mutant(mid, suite)), flush=True)
 
 
 if __name__ == "__main__":
